@@ -1347,13 +1347,16 @@ func init() {
 		}
 		p.Actions = append(p.Actions, Action{At: t, Kind: ACancelStart, Inst: who})
 		ci := len(p.Actions) - 1
+		lateStop := time.Duration(0)
 		if r.Bool(0.3) {
 			// ... or the cancellation lands while one of the instance's own acquisitions is in
 			// flight (its Create has been sent, perhaps applied, not yet answered)
 			a := &p.Actions[len(p.Actions)-1]
 			a.OpKind, a.OpN, a.Phase, a.Delay = "create", 1+r.Intn(2), Pick(r, []string{"invoke", "apply"}), Pick(r, []time.Duration{0, 1})
 			if r.Bool(0.5) { // and much later the application shuts the object down, deleting "its" key
-				p.Actions = append(p.Actions, Action{At: t + p.TTL + r.Dur(2*sec, 6*sec), Kind: AStopCtx, Inst: who, DeleteKey: true})
+				// (sometimes later than any bound within which a replaced leader may still be unaware)
+				lateStop = t + p.TTL + r.Dur(2*sec, 6*sec) + Pick(r, []time.Duration{0, p.H + 8*sec})
+				p.Actions = append(p.Actions, Action{At: lateStop, Kind: AStopCtx, Inst: who, DeleteKey: true})
 			}
 		}
 		if r.Bool(0.3) { // a redundant Start on the running election beforehand (refused)
@@ -1398,6 +1401,9 @@ func init() {
 		}
 		statusCalls(r, p)
 		p.Until = t + 3*p.TTL + 3*sec
+		if lateStop > 0 && p.Until < lateStop+2*sec {
+			p.Until = lateStop + 2*sec
+		}
 		p.Tail = 0
 		if p.Sched.YieldProb == 0 {
 			p.Sched = SchedCfg{YieldProb: Pick(r, []float64{0, 0.2, 0.5}), StallMax: Pick(r, []time.Duration{0, 0, p.H / 50})}
